@@ -402,7 +402,8 @@ Section Dir.
   | OFind (k : name)
   | OLinks | OForEach | OEnumAsync
   | OReload
-  | ODump.
+  | ODump
+  | OAddFail (k : name) (v : val).    (* AddChild while the DAG service refuses the write: error, nothing changes *)
 
   Inductive ob :=
   | BRes (e : option err)                 (* AddChild / RemoveChild: nil or error class *)
@@ -485,6 +486,7 @@ Section Dir.
     | OFind k => (d, find_step k d)
     | OLinks | OForEach | OEnumAsync => (d, BList (entries d))
     | OReload => reload_step d
+    | OAddFail _ _ => (d, BRes (Some EOther))
     | ODump =>
         (d, match d with
             | DBasic l => BDumpBasic (sort_links l)
@@ -566,6 +568,7 @@ Definition spec_step (c : cfg) (hidx : name -> list Z) (capped : bool)
   | OReload, BReload true => Some m
   | ODump, BDumpBasic l => if same_entries l m then Some m else None
   | ODump, BDumpHamt _ => Some m
+  | OAddFail _ _, BRes (Some EOther) => Some m      (* a refused write leaves the map as it was *)
   | _, _ => None
   end.
 
